@@ -238,6 +238,33 @@ def labels(repo, chk):
     bad = [s_ for s_ in steps if not s_[2]]
     chk.expect(len(steps) == 3 and not bad, 'C20.4b', 'R15', fn.site(bad[0][0]) if bad else fn.site(), '; '.join(s[1] for s in steps), 'label = number of cut points the decision value exceeds (monotone step function)',
                f'labels must be sums of indicators (decision > cut point); found {[s[1] for s in bad] or len(steps)}', soft=True)
+    # the equal-shares rule (p := 1 / n) is for MORE than two classes; two classes are cut at the requested share p
+    nparam = next((q for q in fn.params if q == 'n'), None)
+    pparam = next((q for q in fn.params if q == 'p'), None)
+    if nparam and pparam:
+        share = [n_ for n_ in own_nodes(fn.node) if isinstance(n_, ast.Assign) and len(n_.targets) == 1 and isinstance(n_.targets[0], ast.Name) and n_.targets[0].id == pparam
+                 and term_of(fn, n_.value, inline=False) in (expected_term(m, f'1 / {nparam}'), expected_term(m, f'1.0 / {nparam}'))]
+        par_l = parents(fn.node)
+        for sh in share[:1]:
+            tests = []
+            cur, child = par_l.get(sh), sh
+            while cur is not None and cur is not fn.node:
+                if isinstance(cur, ast.If):
+                    tt = term_of(fn, cur.test, inline=False)
+                    in_body = any(child is b for b in cur.body)
+                    if isinstance(tt, tuple) and tt[0] == 'cmp' and ('name', nparam) in (tt[2], tt[3]) and any(isinstance(x, tuple) and x[0] == 'num' for x in (tt[2], tt[3])):
+                        tests.append((cur, tt if in_body else Canon(m, Scope(None))._not(tt)))
+                child, cur = cur, par_l.get(cur)
+            good = (expected_term(m, f'{nparam} > 2'), expected_term(m, f'{nparam} >= 3'), expected_term(m, f'2 < {nparam}'), expected_term(m, f'3 <= {nparam}'))
+            weak = (expected_term(m, f'{nparam} >= 2'), expected_term(m, f'{nparam} > 1'), expected_term(m, f'2 <= {nparam}'), expected_term(m, f'1 < {nparam}'))
+            if any(t_ in good for _, t_ in tests):
+                chk.ok('C20.4d', 'R14', fn.site(tests[0][0]), ast.unparse(tests[0][0].test), 'the equal-shares rule p = 1/n applies to more than two classes only')
+            elif any(t_ in weak for _, t_ in tests):
+                g_ = next(c_ for c_, t_ in tests if t_ in weak)
+                chk.bad('C20.4d', 'R14', fn.site(g_), ast.unparse(g_.test), f'the equal-shares branch (which overwrites a scalar `{pparam}` by 1/{nparam}) is taken for {nparam} == 2 as well: two classes with a requested share '
+                        f'`{pparam}` other than 0.5 are cut at 50%, so the class proportions do not match the requested distribution')
+            else:
+                chk.unsure('C20.4d', 'R14', fn.site(sh), ast.unparse(sh), f'the condition under which `{pparam}` is replaced by 1/{nparam} is not a recognised test of the number of classes')
     # the built-in decision function of each class relation, looked up on the path where none is passed and applied to the data
     from ..match import run_paths, PathEval
     E = lambda s_: expected_term(m, s_)
